@@ -190,8 +190,40 @@ async def setup_tcpclient(p: dict) -> Setup:
     return s
 
 
+async def setup_sockadapter(p: dict) -> Setup:
+    """the real AsyncioTransportStreamSocketAdapter (backend.wrap_stream_socket) over a socketpair: `aclose()` =
+    transport.close() + wait for connection_lost.  "closed" = the asyncio transport is closing (close requested)."""
+    import socket
+
+    from easynetwork.lowlevel.api_async.backend._asyncio.backend import AsyncIOBackend
+
+    s = Setup()
+    a, b = socket.socketpair()
+    tr = await AsyncIOBackend().wrap_stream_socket(a)
+    aio = getattr(tr, "_AsyncioTransportStreamSocketAdapter__transport")
+
+    class Flag:
+        @property
+        def closed(self) -> bool:
+            return bool(aio.is_closing())
+
+    peer = p.get("peer", "open")
+    if peer == "closed":
+        b.close()
+    elif peer == "data":
+        b.send(b"unread\n")
+    for _ in range(3):
+        await asyncio.sleep(0)
+    s.inners = {"t": Flag()}
+    s.outer = tr
+    if p.get("wrap") == "endpoint":
+        s.outer = AsyncStreamEndpoint(tr, sd.make_protocol(LINE, "copy"), max_recv_size=1024)
+    s._keep = (a, b)            # closed by the garbage collector / at loop close
+    return s
+
+
 SETUPS = {"stapled": setup_stapled, "endpoint": setup_endpoint, "tls": setup_tls, "tlswrap": setup_tlswrap,
-          "tcpclient": setup_tcpclient}
+          "tcpclient": setup_tcpclient, "sockadapter": setup_sockadapter}
 
 
 def innermost_lib(chain: tuple[str, ...]) -> str:
@@ -258,6 +290,15 @@ def run_case(case: dict) -> tuple[list[str], dict]:
             second = "ok"
         dt = loop.time() - t0
         lines.append(f"second {second} dt={'0' if dt == 0 else '+'}")
+        if case["path"] == "sockadapter" and second == "ok":
+            # and a third one (a close that was itself interrupted must not poison the ones after it)
+            t3 = loop.create_task(s.again())
+            _, p3 = await asyncio.wait({t3}, timeout=100000.0)
+            third = "hang" if p3 else ("cancelled" if t3.cancelled() else (kind(t3.exception()) if t3.exception() else "ok"))
+            if p3:
+                t3.cancel()
+            if third != "ok":
+                lines[-1] = f"second {third} dt=0 (third close)"
         for b in s.bg:
             b.cancel()
         for b in s.bg:
